@@ -12,7 +12,8 @@ LEVEL = "exploration"
 RULE = ("Hypothesis-generated systems (2-4 atom types, comb-rule 1/2, 1-3 molecule types of 1-8 residues with "
         "1-4 atoms and optional virtual site, linear/branched/ring, [molecules] lists with repeated names and "
         "counts 1-3) x option sets (-box cubic/rectangular or -dens, -c/-mc full/partial, -gs, -grid, -sf, -mf, "
-        "-nr, -start, -res) x polyply RNG seed; the written .gro is parsed independently and compared with the "
+        "-nr, -start, -res) x polyply RNG seed x (one case in three) a scripted pattern of rejected placement steps, "
+        "with a flavour in which supplied and -res residues alternate along chains; the written .gro is parsed independently and compared with the "
         "expansion of [molecules] and with the expected box. non-trivial = (>=2 molecule types used or a "
         "repeated name) and a multi-atom residue; distinct = spec hash")
 ASSUMPTIONS = ["independent .gro reader pbt/itp.py", "dilute boxes (placement always converges; time-outs are inconclusive)",
@@ -64,7 +65,10 @@ def supplied_coords(draw, spec, box, mode=None, nres=None, skip=()):
 
 @st.composite
 def _strategy(draw):
-    spec = draw(gc.system())
+    # one case in four: longer chains in which supplied residues and residues to build (-res) alternate,
+    # together with rejected steps
+    mixed = draw(st.integers(0, 3)) == 0
+    spec = draw(gc.system(max_res=8)) if mixed else draw(gc.system())
     edge = gc.dilute_box(spec)
     opts = {}
     box_kind = draw(st.sampled_from(["box", "box", "rect", "dens"]))
@@ -77,10 +81,10 @@ def _strategy(draw):
         mass = gc.total_mass(spec)
         target = round(edge + draw(st.sampled_from([0.0, 0.7, 1.3])), 2)
         opts["density"] = round(mass * 1.660541 / target ** 3, 4)
-    if draw(st.integers(0, 3)) == 0:
+    if mixed or draw(st.integers(0, 3)) == 0:
         resn = sorted({r["resname"] for mt in spec["moltypes"] for r in mt["residues"]})
         opts["build_res"] = [draw(st.sampled_from(resn))]
-    if draw(st.integers(0, 2)) == 0:
+    if mixed or draw(st.integers(0, 2)) == 0:
         cbox = opts.get("box") or [round(edge + 0.5, 2)] * 3
         if draw(st.integers(0, 3)) == 0:
             # differs from -box: the structure's box wins
@@ -110,6 +114,12 @@ def _strategy(draw):
         ridx = draw(st.integers(0, len(mt["residues"]) - 1))
         opts["start"] = [f"{name}-{mt['residues'][ridx]['resname']}#{ridx + 1}"]
     spec["opts"] = opts
+    interleaved = bool(spec.get("coords")) and bool(opts.get("build_res"))
+    if draw(st.integers(0, 3)) == 0 or (interleaved and mixed):
+        # a scripted pattern of placement steps that are rejected (as an overlap would be): rewinds and
+        # restarts happen also in these dilute systems
+        spec["fail_pattern"] = [draw(st.integers(0, 2)) == 0 for _ in range(draw(st.integers(1, 20)))]
+        opts["nrewind"] = draw(st.integers(2, 3)) if mixed else draw(st.integers(1, 4))
     return spec
 
 
@@ -146,7 +156,25 @@ def check_gro_listing(spec, res, clause="gro"):
 
 
 def check(spec, ctx):
-    res = gc.run_gen_coords(spec, ctx)
+    from polyply.src.random_walk import RandomWalk
+    pattern = list(spec.get("fail_pattern", []))
+    orig_update = RandomWalk.update_positions
+    fails = [0]
+
+    def scripted(self, vector_bundle, current_node, prev_node):
+        if pattern and pattern.pop(0):
+            fails[0] += 1
+            return False
+        return orig_update(self, vector_bundle, current_node, prev_node)
+
+    if pattern:
+        RandomWalk.update_positions = scripted
+    try:
+        res = gc.run_gen_coords(spec, ctx)
+    finally:
+        RandomWalk.update_positions = orig_update
+    if fails[0]:
+        ctx.label("rejected_steps")
     if res.exc is not None:
         if isinstance(res.exc, (IOError, OSError)):
             raise Reject(str(res.exc)[:200])
